@@ -85,9 +85,10 @@ def run_for(prop, tier, workdir):
         if g['kind'] == 'incrate':
             # compiled inside the real crate through the cfg(kani) hook in src/lib.rs
             os.makedirs(wd, exist_ok=True)
-            if 'verif_kani' not in open(os.path.join(REPO, 'src', 'lib.rs')).read():
+            hook_file = g.get('hook_file', 'src/lib.rs')
+            if 'verif_kani' not in open(os.path.join(REPO, hook_file)).read():
                 out['status'] = 'undecided'
-                out['reason'] = 'cfg(kani) hook missing from src/lib.rs'
+                out['reason'] = 'cfg(kani) hook missing from %s' % hook_file
                 continue
             genv = dict(env, CALLOOP_VERIF_DIR=os.path.dirname(KX), CARGO_TARGET_DIR=os.path.join(wd, 'target'))
             cmd = ['cargo', 'kani', '-p', 'calloop'] + sum((['--harness', h['name']] for h in hs), [])
@@ -127,5 +128,5 @@ def run_for(prop, tier, workdir):
             out['harnesses'].append(rec)
         shutil.rmtree(os.path.join(wd, 'target'), ignore_errors=True)
         if g['kind'] == 'incrate':
-            out['stubs'].append('in-crate Kani harnesses compiled through the cfg(kani) hook in src/lib.rs (no stubs)')
+            out['stubs'].append('in-crate Kani harnesses compiled through the cfg(kani) hook in %s (no stubs)' % g.get('hook_file', 'src/lib.rs'))
     return out
